@@ -298,9 +298,12 @@ func (i *Interpreter) Define(clauseText string) error {
 	if err != nil {
 		return fmt.Errorf("parsing failed: %v", err)
 	}
+	// A definition that is rejected must leave everything as it was.
+	restore := i.saveInteractiveDefs()
 	i.resetInteractiveDefs(buffer)
 	programInfo, err := analysis.AnalyzeOneUnit(unit, i.knownPredicates)
 	if err != nil {
+		restore()
 		return fmt.Errorf("analysis failed: %v", err)
 	}
 	i.pushSourceFragment(interactivePath, []parse.SourceUnit{unit}, programInfo)
@@ -308,6 +311,8 @@ func (i *Interpreter) Define(clauseText string) error {
 	// let the user control when to evaluate rules.
 	err = i.evalProgram(programInfo)
 	if err != nil {
+		i.popSourceFragment()
+		restore()
 		return fmt.Errorf("evaluation failed: %v", err)
 	}
 	var preds []ast.PredicateSym
@@ -471,6 +476,27 @@ func (i *Interpreter) popSourceFragment() *sourceFragment {
 func (i *Interpreter) hasInteractiveDefs() bool {
 	l := len(i.src)
 	return l > 0 && i.src[l-1] == interactivePath
+}
+
+// saveInteractiveDefs returns a function that puts back the interactive buffer
+// and the interactive source fragment (if any), with the facts that were derived
+// from it, after resetInteractiveDefs has removed them.
+func (i *Interpreter) saveInteractiveDefs() func() {
+	buffer := i.buffer
+	if !i.hasInteractiveDefs() {
+		return func() { i.buffer = buffer }
+	}
+	f := i.sourceFragments[interactivePath]
+	knownPredicates, simpleStore, temporalStore := i.knownPredicates, i.simpleStore, i.temporalStore
+	return func() {
+		i.buffer = buffer
+		i.src = append(i.src, interactivePath)
+		i.sourceFragments[interactivePath] = f
+		i.knownPredicates = knownPredicates
+		i.simpleStore = simpleStore
+		i.temporalStore = temporalStore
+		i.updateCombinedStore()
+	}
 }
 
 func (i *Interpreter) resetInteractiveDefs(buffer string) {
